@@ -236,7 +236,7 @@ def gen_call(rnd):
         args = []
         for _ in range(k):
             core = arg_text(rnd)
-            a = rnd.choice(["", "", " ", "  "]) + core + rnd.choice(["", "", " "])
+            a = rnd.choice(["", "", " ", "  ", "\\\n", " \\\n  "]) + core + rnd.choice(["", "", " ", "\\\n", " \\\n\\\n "])
             args.append(a)
         if len(args) >= 2 and rnd.random() < 0.05:
             # an interior argument that is white space only: passed as it is or refused like the empty one, never dropped (the later ones would shift)
@@ -270,7 +270,9 @@ def gen_call(rnd):
 BLOCK_LINES = ["ls -l", "x = 42", "echo $PATH", 'export PATH="yo:momma"', "pass", "a b c d", "if True:", "for x in range(6):", "with q as t:", "else:", "v = [1,\n     2,\n  3]",
                "s = '''a\n  b\n'''", "print('it''s')", "$(raw (text) here)", "a = {1: 'x', 2: (3, 4)}", "import os; os.x", "not python at all !", "f!(x, y)", "# a comment", "", "q = \"#\" # c",
                # multi-line strings whose inner lines hold characters that str.splitlines() treats as line ends, and f-strings whose literal part ends a line
-               "s = '''a\x0cb\n  c\n  d'''", "t = '''u\u2028v\nw'''", "r = '''x\x1cy\x85z\n'''", "a = f'''\n    foo\n'''", "b = f'''{k}\n  m\n''' + '''\n'''", "c = g(f'''\n{k}\n\n''')"]
+               "s = '''a\x0cb\n  c\n  d'''", "t = '''u\u2028v\nw'''", "r = '''x\x1cy\x85z\n'''", "a = f'''\n    foo\n'''", "b = f'''{k}\n  m\n''' + '''\n'''", "c = g(f'''\n{k}\n\n''')",
+               # physical lines on which no token starts
+               "d = 1 + \\\n\\\n2", "e = '''x\ny''' \\\n+ 1", "f = (1,\n\\\n2)"]
 
 
 def _lf_lines(text):
